@@ -17,6 +17,9 @@ def swarm(rng):
     cfg.pop("prefer_read", None)
     if pr:
         cfg["prefer_read"] = pr
+    if rng.random() < 0.2:
+        cfg["gadget_derived_uncached"] = True
+        cfg["n_spaces"] = max(cfg["n_spaces"], 3)
     return cfg
 
 
@@ -118,7 +121,44 @@ class C09(PropBase):
         cfg = ctx.cfg
         run = history.Run(ctx, cfg, [FlagTwin(), history.TwinOracle("C09")])
         if ctx.doc is None:
+            if cfg.get("gadget_derived_uncached"):
+                # an uncached cells that is only *derived* where it is called: its flag changes by re-inheritance
+                # (flag change or deletion in the base), not by an edit of the cells itself
+                rr = ctx.rng("gadget")
+                for op in ({"op": "new_space", "parent": "", "name": "A", "bases": []},
+                           {"op": "set_ref", "space": "A", "name": "k", "value": {"t": "int", "v": 1007}},
+                           {"op": "new_cells", "space": "A", "name": "f", "is_cached": False,
+                            "formula": {"style": "lambda", "params": [["x", None]], "ret": ["bin", "*", ["n", "k"], ["p", "x"]]}},
+                           {"op": "new_space", "parent": "", "name": "B", "bases": ["A"]},
+                           {"op": "new_space", "parent": "B", "name": "U", "bases": []},
+                           {"op": "new_cells", "space": "B.U", "name": "g", "is_cached": True,
+                            "formula": {"style": "lambda", "params": [["x", None]],
+                                        "ret": ["bin", "+", ["call", ["_space", "parent"], "f", [["p", "x"]], "pos", ["x"]], ["c", 1]]}},
+                           {"op": "new_space", "parent": "", "name": "C", "bases": []},
+                           {"op": "new_cells", "space": "C", "name": "h", "is_cached": True,
+                            "formula": {"style": "lambda", "params": [["x", None]],
+                                        "ret": ["bin", "+", ["call", ["_model", "B"], "f", [["p", "x"]], "pos", ["x"]], ["c", 2]]}},
+                           {"op": "eval", "loc": ["B", "U"], "name": "g", "args": [2], "spell": "pos"},
+                           {"op": "eval", "loc": ["C"], "name": "h", "args": [rr.choice([1, 2, 3])], "spell": "pos"}):
+                    run.step(op)
             run.generate(WEIGHTS, cfg["n_steps"], cfg["p_check"])
+            if cfg.get("gadget_derived_uncached"):
+                # whatever the random history left of the gadget: flip the base's flag (or delete the base definition), let a few
+                # steps pass, change the reference the cells reads by name, and ask again
+                rr = ctx.rng("gadget-tail")
+                tail = [rr.choice([{"op": "set_cached", "space": "A", "name": "f", "v": True},
+                                   {"op": "set_cached", "space": "A", "name": "f", "v": True},
+                                   {"op": "del_cells", "space": "A", "name": "f", "how": "delattr"}])]
+                for _ in range(rr.choice([0, 0, 1, 3])):
+                    op = run.mach.next_op(WEIGHTS)
+                    if op:
+                        tail.append(op)
+                tail += [{"op": "set_ref", "space": "A", "name": "k", "value": {"t": "int", "v": 900001 + rr.randrange(50)}},
+                         {"op": "eval", "loc": ["B", "U"], "name": "g", "args": [2], "spell": "pos"},
+                         {"op": "eval", "loc": ["C"], "name": "h", "args": [rr.choice([1, 2, 3])], "spell": "pos"},
+                         {"op": "checkpoint", "extra": [], "final": True}]
+                for op in tail:
+                    run.step(op)
         else:
             run.replay(ctx.doc["steps"])
         self.unhashable(ctx, run)
